@@ -244,7 +244,7 @@ func maskedRegOp(f binaryExprFunc, i instruction, bits uint8, w expr.Width) expr
 
 func regImmShift(f binaryExprFunc, i instruction, bits uint8, w expr.Width) expr.Expr {
 	assertShiftBits(bits)
-	mask := int32(1) << int32(bits)
+	mask := (int32(1) << int32(bits)) - 1
 	imm, _ := immTypeI.parseValue(i.value)
 	immShift := expr.ConstFromInt(imm & mask)
 	return f(regLoad(rs1, i, w), immShift, w)
